@@ -127,6 +127,9 @@ LeafAttempt(it, R) ==
   ELSE IF occ = <<>>
   THEN IF it.kind = "switch" THEN [res |-> "ok", v |-> FALSE, used |-> {}, left |-> 0, all |-> FALSE]
        ELSE IF it.arity = "opt" THEN [res |-> "ok", v |-> "NONE", used |-> {}, left |-> 0, all |-> FALSE]
+       ELSE IF it.arity \in {"fallback", "fallback_with"}
+       THEN [res |-> "ok", used |-> {}, left |-> 0, all |-> FALSE,
+             v |-> IF it.kind # "arg" THEN "U" ELSE IF it.vt = "int" THEN FallbackInt ELSE FallbackStr]
        ELSE [res |-> "miss", v |-> "NONE", used |-> {}, left |-> 0, all |-> FALSE]
   ELSE LET h == Head(occ) IN
        IF it.kind = "arg" /\ BadValue(it, h.v) THEN [res |-> "hard", v |-> "NONE", used |-> {}, left |-> 0, all |-> FALSE]
